@@ -64,6 +64,11 @@ def worker(job):
     for inst in range(job["installations"]):
         if inst > 0:
             sock.set_keys(user.name, user.get_auth_alg(), user.get_auth_key(), user.get_priv_alg(), user.get_priv_key())
+            if inst == 1 and hasattr(sock, "verif_set_salt"):
+                # hook (feature 'verif'): start this installation three messages before the counter wraps, so that the
+                # all-ones and the all-zero salt values are really sent by the session, not only produced by encrypt()
+                sock.verif_set_salt((1 << 64) - 3 if cfg.priv == "aes" else (1 << 32) - 3)
+                res["wrap_installations"] = res.get("wrap_installations", 0) + 1
         res["installations"] += 1
         prev = None
         seen = set()
@@ -282,6 +287,7 @@ def main():
         st["receives"] += res["receives"]
         st["distinct_salts"] += res["salts_distinct"]
         st["refused_set_keys"] = st.get("refused_set_keys", 0) + res.get("refused_set_keys", 0)
+        st["wrap_installations"] = st.get("wrap_installations", 0) + res.get("wrap_installations", 0)
         for x in res.get("samples", [])[:1]:
             chk.sample(x, limit=5)
         key = rigp.Cfg.from_json(o["job"]["cfg"]).key()
